@@ -29,17 +29,9 @@ PILOT, HDR, DATA, S1, S2, ONE, ZERO, PAUSE = 2168, 8063, 3223, 667, 735, 1710, 8
 MAX_EXTRA = 32      # the statement: no pulse more than 32 T-states longer than nominal
 
 
-def step_bound(chk, prog):
-    """upper jitter bound.  A pulse of nominal length N starts at the call that runs the state machine (edge at that
-    call's time) and ends at the first call entered with delay == 0; the calls in between count N down and the one that
-    reaches 0 may overshoot by at most (its step - 1) (countdown rule above), after which exactly one more call passes
-    before the state machine runs again (table rows: every state acts at delay == 0).  With S the largest step ever
-    passed to Tap::process_clocks the pulse therefore lasts at most N + (S - 1) + S.  S is bounded over every call
-    site of the whole workspace (T-BOUND, rules/argbound.py)."""
+def make_argbound(prog, names, cg):
+    """T-BOUND engine with the one call result it needs bounded: the contention table maximum (every machine)"""
     from . import argbound
-    names = cc.Names(prog)
-    cg, fa = cc.scans(prog)
-    chk.rule("T-BOUND", "largest step ever passed to Tap::process_clocks, over all call sites of the workspace: pulse <= nominal + 2*step - 1 <= nominal + 32")
     CCP = prog.fn_path("rustzx_core", "ZXMachine::contention_clocks")
 
     def ret_bound(path):
@@ -56,7 +48,21 @@ def step_bound(chk, prog):
                     return None
                 best = max(best, tm.urange(r.ret)[1])
         return best
-    ab = argbound.ArgBound(prog, cg, ret_bound)
+    return argbound.ArgBound(prog, cg, ret_bound)
+
+
+def step_bound(chk, prog):
+    """upper jitter bound.  A pulse of nominal length N starts at the call that runs the state machine (edge at that
+    call's time) and ends at the first call entered with delay == 0; the calls in between count N down and the one that
+    reaches 0 may overshoot by at most (its step - 1) (countdown rule above), after which exactly one more call passes
+    before the state machine runs again (table rows: every state acts at delay == 0).  With S the largest step ever
+    passed to Tap::process_clocks the pulse therefore lasts at most N + (S - 1) + S.  S is bounded over every call
+    site of the whole workspace (T-BOUND, rules/argbound.py)."""
+    from . import argbound
+    names = cc.Names(prog)
+    cg, fa = cc.scans(prog)
+    chk.rule("T-BOUND", "largest step ever passed to Tap::process_clocks, over all call sites of the workspace: pulse <= nominal + 2*step - 1 <= nominal + 32")
+    ab = make_argbound(prog, names, cg)
     tp = [p for p in prog.fns if p.endswith("::process_clocks") and "::tap::Tap<" in p]
     key = "T-BOUND/Tap::process_clocks/step"
     if len(tp) != 1:
